@@ -44,3 +44,33 @@ def relerr(got, ref, scale=None):
 
 def rng_of(seed):
     return np.random.default_rng(int(seed))
+
+
+PACKS = ["same", "same", "int", "list", "fortran", "strided", "readonly"]
+
+
+def repack(arr, mode):
+    """The same numbers in another container / dtype / memory layout, as a caller might hold them.
+
+    mode: same | int (only if every value is an integer < 2**40, else unchanged) | list (nested lists; ints where
+    integer-valued) | fortran (column-major copy) | strided (view of every other element of a larger buffer along the
+    last axis) | readonly (writeable flag cleared: a routine that only reads its input must not notice).
+    -> (object to hand over, label actually applied)"""
+    a = np.asarray(arr)
+    if mode in ("int", "list"):
+        intval = a.dtype.kind in "iu" or (a.dtype.kind == "f" and a.size > 0 and np.all(np.isfinite(a))
+                                          and np.all(a == np.round(a)) and np.abs(a).max() < 2 ** 40)
+        if mode == "int":
+            return (a.astype(np.int64), "int") if intval else (arr, "same")
+        return (a.astype(np.int64).tolist() if intval else a.tolist()), "list"
+    if mode == "fortran" and a.ndim >= 2:
+        return np.asfortranarray(a.copy()), "fortran"
+    if mode == "strided" and a.ndim >= 1 and a.shape[-1] > 0:
+        big = np.full(a.shape[:-1] + (2 * a.shape[-1],), 7.5, dtype=a.dtype)
+        big[..., ::2] = a
+        return big[..., ::2], "strided"
+    if mode == "readonly":
+        b = a.copy()
+        b.flags.writeable = False
+        return b, "readonly"
+    return arr, "same"
